@@ -2,7 +2,7 @@
    ExtrOcamlBasic only (bool, option, list, prod, unit, sumbool mapped to the
    OCaml types); Z / positive / N / nat stay the extracted inductive types. *)
 From Coq Require Import Extraction ExtrOcamlBasic.
-From LNC Require Noise Sym Pairing GbnTimed.
+From LNC Require Noise Sym Pairing GbnTimed Session.
 From LNC Require Import GoLite MessagesGen QueueGen SyncerGen MsgDataGen SidGen Codec Gbn GbnMonitor GbnHandshake Timeout.
 
 Extraction Language OCaml.
@@ -19,4 +19,5 @@ Extraction "lnc_model.ml"
   Noise.tcp_write_records Noise.grpc_write_records Noise.flush Noise.flush_all Noise.read_full Noise.seal_tags
   Sym.run Sym.mk_init Sym.mk_resp Sym.faithful Sym.term_eqb Sym.completed
   Pairing.entropy_to_words Pairing.words_to_entropy
-  GbnTimed.kstep GbnTimed.pstep.
+  GbnTimed.kstep GbnTimed.pstep
+  Session.sstep Session.sinit.
